@@ -175,7 +175,7 @@ def variants(fn, resolve_callee=None):
             if resolve_callee is not None:
                 info = resolve_callee(n)
                 if info is not None:
-                    params, offset = info          # positional parameter names of the callee, 1 if bound method
+                    params, offset = info[:2]          # positional parameter names of the callee, 1 if bound method
                     k = len(n.args)
                     if k >= 1 and not any(isinstance(a, ast.Starred) for a in n.args) and k - 1 + offset < len(params) \
                             and not any(kw.arg is None for kw in n.keywords):
